@@ -132,12 +132,25 @@ def _step_sum(seed, n_cases):
 
 
 def run(seed=0, tier="quick", aimed=None):
+    import traceback
+
     n = 4 if tier == "quick" else 40
-    ok, c1, fi, s1 = _face_match(seed, n)
-    if not ok:
-        return {"ok": False, "cases": c1, "failing_input": fi, "samples": s1}
-    ok, c2, fi, s2 = _step_sum(seed, 2 if tier == "quick" else 10)
-    return {"ok": ok, "cases": c1 + c2, "failing_input": fi, "samples": s1 + s2}
+    cases, samples, errors = 0, [], []
+    # the parts are independent: one that cannot run on a changed tree (e.g. a kernel it looks up by name is gone) must not
+    # keep the others from searching
+    for part, arg in ((_face_match, n), (_step_sum, 2 if tier == "quick" else 10)):
+        try:
+            ok, c, fi, s = part(seed, arg)
+        except Exception:  # noqa: BLE001
+            errors.append(f"{part.__name__}: " + traceback.format_exc()[-1500:])
+            continue
+        cases += c
+        samples += s
+        if not ok:
+            return {"ok": False, "cases": cases, "failing_input": fi, "samples": samples, "part_errors": errors}
+    if errors and aimed is not None and not aimed:
+        raise RuntimeError("C04 oracle part crashed on a tree with no broken obligation:\n" + "\n".join(errors))
+    return {"ok": True, "cases": cases, "failing_input": None, "samples": samples, "part_errors": errors}
 
 
 def replay(fi):
